@@ -89,6 +89,8 @@ def run(ctx):
                 if r0 != r: ctx.violation('text-check-depends-on-the-string', {'element': p, 'call': kind, 'string': s_}, r0, r, {'call': kind})
             kw_ = 'text' if kind == 'addText' else 'cdata'
             rk = [outcome(lambda: Element(qname=p, check_grammar=True, **{kw_: s_})) for s_ in ('x', '', ' ')]; ctx.oracle_cases += 3
+            ru = outcome(lambda: Element(qname=p, check_grammar=False, **{kw_: 'x'})); ctx.oracle_cases += 1
+            if ru != 'Accepted': ctx.violation('unchecked-call-refused', {'element': p, 'call': 'constructor ' + kw_ + '= with check_grammar=False'}, ru, 'Accepted', {'call': 'constructor'})
             if len(set(rk)) != 1: ctx.violation('text-check-depends-on-the-string', {'element': p, 'call': 'constructor ' + kw_ + '=', 'strings': ['x', '', ' ']}, rk, 'one outcome', {'call': kind})
             if r != 'Accepted':
                 ctx.nt(('text', p)); ctx.bump('text-refused')
